@@ -65,6 +65,7 @@ type Ctx struct {
 	inQuant   int
 	nanSyms   []string
 	topName   string
+	topFrame  *Frame
 }
 
 type writeRec struct {
@@ -192,6 +193,15 @@ func (c *Ctx) oblige(st *State, kind, label string, props []string, goal T, pos 
 	if pos.IsValid() {
 		p := c.fset.Position(pos)
 		o.Pos = fmt.Sprintf("%s:%d", p.Filename, p.Line)
+	}
+	if (safetyKinds[kind] || kind == "pre@call") && c.topFrame != nil && c.topFrame.old != nil {
+		if vals, plan := c.postReplayValues(c.topFrame, c.topFrame.old, "safety"); plan != nil {
+			if c.fc != nil && len(c.fc.Params) > 0 {
+				plan.Names = c.fc.Params
+			}
+			o.Values = vals
+			o.Replay = plan
+		}
 	}
 	c.obls = append(c.obls, o)
 	return o
